@@ -5,6 +5,7 @@ import numpy as np
 from hypothesis import strategies as st
 
 from refs import astm_rainflow
+from vlib import defaults
 from vlib.core import Part
 
 PROPERTY = "C05"
@@ -264,4 +265,7 @@ PARTS = [
         c for i, c in enumerate(enum_small(0, 1, "quick")) if i % 7 == s and i % n * 0 == 0),
         quick=(1, None), thorough=(7, None), c_variant="asan_twopass", preload_asan=True,
         tiers=("thorough",)),
+    # documented defaults: leaving a keyword out = passing its documented value (vlib/defaults.py)
+    Part("defaults", defaults.make_oracle("C05"), enum=defaults.make_enum(), quick=(1, None), thorough=(1, None),
+         exhaustive=True),
 ]
